@@ -257,6 +257,10 @@ func genLabels(t *rapid.T, label string, max int) map[string]string {
 	for i := 0; i < n; i++ {
 		k := rapid.SampledFrom(discLabelPool).Draw(t, fmt.Sprintf("%s-k%d", label, i))
 		out[k] = rapid.SampledFrom(valuePool).Draw(t, fmt.Sprintf("%s-v%d", label, i))
+		if strings.HasPrefix(k, "__meta_") && rapid.IntRange(0, 5).Draw(t, fmt.Sprintf("%s-latin1-%d", label, i)) == 0 {
+			// discovery meta data is not checked for valid UTF-8 (it never becomes a label of the target)
+			out[k] = "caf\xe9 latin-1"
+		}
 	}
 	return out
 }
